@@ -8,7 +8,9 @@ FIELDS = ['receiver_timestamp', 'destination_station', 'line_count', 'relative_t
 KEY = {'receiver_timestamp': 'c', 'destination_station': 'd', 'line_count': 'n', 'relative_time': 'r',
        'source_station': 's', 'text': 't', 'group': 'g'}
 VALUES = [b'x', b'STATION1', b'1671533231', b'a:b', b':', b'a b', b'', b'-', b'0', b'\xc3\xa9t\xc3\xa9', b'A' * 40,
-          b'1-2-3', b'g:1', b'~!@#$%^&()', b' lead', b'trail ', b'\xe2\x82\xac']
+          b'1-2-3', b'g:1', b'~!@#$%^&()', b' lead', b'trail ', b'\xe2\x82\xac',
+          # a caret in front of two hex digits (NMEA 4.10 knows '^hh' escapes; what is written comes back as written)
+          b'x^2Cy', b'^5E2C', b'a^5Eb', b'^', b'^^', b'^2A^0D', b'100%^41', b'%2C', b'&amp;', b'\\x41'.replace(b'\\', b'/')]
 
 
 def xor(bs):
